@@ -14,10 +14,13 @@ LEVEL_TEXT = ("static: decides, for all messages and capacities: (CAP) every ele
               "failed; (FREE) ares_free_data releases every pointer member of each typed allocation and follows next, and each parser allocates the type of the "
               "struct it fills; (KEYS) inside a loop filtered on record type T only keys of T are read; (BINSAFE) length-carrying binary values are copied with "
               "their length; (OWN) nothing the parsers allocate leaks or is freed twice. Does NOT decide value equality with the record API.")
+# fifth-round additions
+TECHNIQUE += "; " + 'disjunctive forward analysis over (status, result pointer) at the hand-out store of every legacy parser (R-C18-NODATA); dense-fill check of hostent arrays (index advanced only after a store)'
+LEVEL_TEXT += " " + '(NODATA) the result pointer is non-NULL wherever a parser hands it out under a successful status -- violated by six list parsers on the pinned tree (success with a NULL list for an answer section without records of the type), known findings, the pinned tests pin that behaviour; (TERM) the store index of h_addr_list/h_aliases advances only in rounds that stored an element.'
 LEVEL_NOTE = "trusts clang CFG + extractor; field-value equality with the record API for all messages is a differential property and needs execution"
 DESIGN_REF = "DESIGN.md §6/C18"
 EXPLANATION = LEVEL_TEXT
-NOT_DECIDED = "field-value equality with the record API for all messages; answer order beyond 'appended at the tail'; the no-data vs. empty-success convention (differs per family, documented in evidence only)"
+NOT_DECIDED = "field-value equality with the record API for all messages; answer order beyond 'appended at the tail'; the SUCCESS/0 result of ares_parse_a_reply/aaaa_reply when only an addrttl array is given and no record of the family is present"
 
 LEGACY = ("ares_parse_a_reply", "ares_parse_aaaa_reply", "ares_parse_caa_reply", "ares_parse_mx_reply", "ares_parse_naptr_reply", "ares_parse_ns_reply",
           "ares_parse_ptr_reply", "ares_parse_soa_reply", "ares_parse_srv_reply", "ares_parse_txt_reply", "ares_parse_txt_reply_ext", "ares_parse_uri_reply")
